@@ -164,6 +164,16 @@ def insertRow (vals : Row) : Row := fun c =>
   | .null => .null
   | v => v
 
+/-- `attr.get_raw_values(val)` = `val._get_raw_pkval_()`: the column receives the target's primary key — which is `None` as long
+    as the target is a new object whose key the database has not generated yet (`known t = false`).  The flush model below writes
+    `vals` itself, i.e. it assumes every referenced key is known when a row is written; `_save_principal_objects_` (INSERT of the
+    referenced new objects first, C16) is what establishes that in the real code.  Props/C09.lean: `C09_raw_fk_exact`,
+    `C09_raw_fk_lost`. -/
+def rawRow (known : Key → Bool) (vals : Row) : Row := fun c =>
+  match vals c with
+  | .ref t => if known t then .ref t else .null
+  | v => v
+
 /-- the row after `UPDATE .. SET cols = vals` -/
 def updateRow (row : Row) (cols : List Nat) (vals : Row) : Row := fun c => if cols.contains c then vals c else row c
 
